@@ -156,6 +156,10 @@ def stmt_pieces(st, rng, opts, laid):
             lead = "amp" if amp else "free"
         else:
             amp = rng.random() < (opts.p_lead_amp + 1) / 2
+            # without a leading '&' the continuation of a literal must not itself begin with
+            # (blanks and) '&' or '!': that text would be taken for the marker / a comment
+            if text[pos:].lstrip()[:1] in ("&", "!"):
+                amp = True
             lines.append((seg + "&", "lit", lead))
             lead = "amp" if amp else "col1"
             laid.hit("cut-literal" + ("-amp" if amp else "-noamp"))
@@ -253,19 +257,25 @@ def render_free(prog, rng, opts=None, comment_texts=None):
         last = len(laid.lines)
         laid.spans[st.uid] = (first, last)
         laid.order.append(st.uid)
-        # ';' join with following simple statements
+        # ';' join with following simple statements; a trailing comment of the line stays at
+        # its end (it then belongs to the whole line: delivered after the last statement)
         while (opts.p_semi and i + 1 < n and len(pieces) == 1 and rng.random() < opts.p_semi
                and flat[i + 1][0].label is None and flat[i][0].role == "simple"
-               and flat[i + 1][0].role == "simple" and flat[i + 1][0].cons is None and flat[i][0].cons is None
-               and "!" not in laid.lines[-1].split("'")[0]):
+               and flat[i + 1][0].role == "simple" and flat[i + 1][0].cons is None and flat[i][0].cons is None):
             nxt = flat[i + 1][0]
-            t2 = " ".join([]) + (nxt.text() if opts.case == "keep" else join_natural([recase(t, opts.case, rng) for t in nxt.toks]))
-            if "!" in laid.lines[-1]:
+            t2 = nxt.text() if opts.case == "keep" else join_natural([recase(t, opts.case, rng) for t in nxt.toks])
+            cur = laid.lines[-1]
+            tail = ""
+            if laid.comments and laid.comments[-1][0] == len(laid.lines) and laid.comments[-1][2]:
+                c = laid.comments[-1][1]
+                if cur.endswith(" " + c):
+                    cur, tail = cur[: len(cur) - len(c) - 1], " " + c
+            elif "!" in cur.split("'")[0].split('"')[0]:
                 break
-            laid.lines[-1] = laid.lines[-1] + rng.choice(["; ", ";", " ; "]) + t2
+            laid.lines[-1] = cur + rng.choice(["; ", ";", " ; "]) + t2 + tail
             laid.spans[nxt.uid] = (last, last)
             laid.order.append(nxt.uid)
-            laid.hit("semicolon-join")
+            laid.hit("semicolon-join" + ("-with-comment" if tail else ""))
             i += 1
         i += 1
     emit_between("")
